@@ -6,12 +6,15 @@
                three neighbour cells, two triangles, flip rule;
      v1_mesh   contourCellProc / dcContourFaceProc / dcContourEdgeProc /
                dcContourProcessEdge of dc3v1.go on the full-depth octree that
-               Populate builds (no simplification).
+               Populate builds (no simplification).  The octree pruned by Populate's
+               out-of-volume filter on non-cubic volumes: Algo/DCPrune.v; the four Go
+               functions translated from the source and proved equal to this model:
+               Generated/DCProc.v, Algo/DCProcEq.v.
 
    Theorems: v2_quad_rule (for every lattice and sign assignment v2_mesh is the dual
    mesh of Algo/DualGrid.v as a multiset of triangles), v1_tables_geometry,
-   v1_process_edge_rule, v1_traversal (depth <= 3, every sign assignment), and the
-   determinism scan.  Vertex positions (QEF / SVD) are not modelled. *)
+   v1_process_edge_rule, v1_traversal (Algo/DCOctree.v, Algo/DCVisits.v: every depth, every sign
+   assignment), and the determinism scan.  Vertex positions (QEF / SVD) are not modelled. *)
 From Coq Require Import List ZArith NArith Lia Bool Permutation FMapPositive.
 From Sdfx Require Import Generated.DCTables.
 From Sdfx Require Import Algo.DualGrid.
